@@ -178,7 +178,7 @@ pub fn iterstates(a: &Args, rep: &mut Report) {
     for h in 0..sh.n {
         let mut hr = rng.fork();
         let size = if cfg!(miri) { *hr.pick(&[3usize, 14]) } else { *hr.pick(&[0usize, 1, 5, 14, 15, 20, 29, 40, 61, 100]) };
-        let state = hr.below(6);
+        let state = hr.below(7);
         let elem = *hr.pick(&[ElemKind::TrInline, ElemKind::TrHeap, ElemKind::U64]);
         let cfg = Cfg { elem, bh: Bh::new(*hr.pick(&[HMode::Good, HMode::Identity, HMode::SameTag]), hr.below(3)), cap: usize::MAX, check_every: 1, cursor_every: 1, focus };
         // the length the state will have is not known before building: use generous prefixes
@@ -277,7 +277,7 @@ pub fn limits(a: &Args, rep: &mut Report) {
     for h in 0..sh.n {
         let mut hr = rng.fork();
         let size = *hr.pick(&[0usize, 1, 3, 7, 9, 14, 15, 20, 28, 29, 40, 57, 100]);
-        let state = hr.below(6);
+        let state = hr.below(7);
         let elem = *hr.pick(&[ElemKind::U64, ElemKind::U64, ElemKind::TrInline]);
         let cfg = Cfg { elem, bh: Bh::new(*hr.pick(&[HMode::Good, HMode::Identity]), hr.below(3)), cap: usize::MAX, check_every: 16, cursor_every: 4, focus };
         let out = match elem {
@@ -529,6 +529,8 @@ struct Recipe {
     shuffle: u64,
     noise: usize,
     force_split: bool,
+    /// finally start a resize through reserve (main table empty, everything in the old one)
+    reserve_split: bool,
 }
 
 fn build_map(contents: &BTreeMap<u64, u64>, r: &Recipe) -> (HashMap<u64, u64, Bh>, bool) {
@@ -563,6 +565,21 @@ fn build_map(contents: &BTreeMap<u64, u64>, r: &Recipe) -> (HashMap<u64, u64, Bh
     for nk in noise_keys {
         m.remove(&nk);
     }
+    if r.reserve_split && !m.is_empty() {
+        let mut extra = 0u64;
+        let mut noise_keys = Vec::new();
+        while m.verif_state().old.is_some() && extra < 5000 {
+            extra += 1;
+            let nk = (1u64 << 47) + extra;
+            m.insert(nk, 3);
+            noise_keys.push(nk);
+        }
+        for nk in noise_keys {
+            m.remove(&nk);
+        }
+        let free = m.capacity() - m.len();
+        m.reserve(free + 1);
+    }
     let split = m.verif_state().old.as_ref().map_or(false, |o| o.table.len > 0);
     (m, split)
 }
@@ -572,7 +589,7 @@ fn observe_same(x: &HashMap<u64, u64, Bh>, y: &HashMap<u64, u64, Bh>, universe: 
         return Err("maps with equal contents compare unequal".into());
     }
     if x.len() != y.len() || x.is_empty() != y.is_empty() {
-        return Err("len differs".into());
+        return Err("len / is_empty differs".into());
     }
     for k in 0..universe {
         if x.get(&k) != y.get(&k) || x.contains_key(&k) != y.contains_key(&k) || x.get_key_value(&k) != y.get_key_value(&k) {
@@ -624,6 +641,7 @@ pub fn meta(a: &Args, rep: &mut Report) {
             shuffle: hr.next(),
             noise: hr.usize(n + 1),
             force_split: hr.chance(1, 2),
+            reserve_split: hr.chance(1, 4),
         };
         let (r1, r2, r3) = (recipe(&mut hr), recipe(&mut hr), recipe(&mut hr));
         let tag = format!("meta-{}-s{}-i{}-h{}", flavour(), sh.seed, sh.index, h);
@@ -739,7 +757,7 @@ pub fn dropbomb(a: &Args, rep: &mut Report) {
     for h in 0..sh.n {
         let mut hr = rng.fork();
         let size = if cfg!(miri) { *hr.pick(&[4usize, 15]) } else { *hr.pick(&[2usize, 5, 14, 15, 20, 29, 40, 61, 100]) };
-        let state = hr.below(6);
+        let state = hr.below(7);
         let cfg = Cfg { elem: ElemKind::TrHeap, bh: Bh::new(*hr.pick(&[HMode::Good, HMode::Identity]), hr.below(3)), cap: usize::MAX, check_every: 1, cursor_every: 1, focus };
         let mut s: Sess<T, T> = Sess::new(&cfg);
         let mut next = 1000;
